@@ -29,7 +29,11 @@ def run(res, tier):
         T = o["power_poles"]
         ents = r["printed"]["blueprint"]["entities"]
         ids = r["entity_ids"]
-        poles = [(e, i) for e, i in zip(ents, ids) if e["name"] in POLE_PROTO.values()]
+        # poles the program itself places with place("...-electric-pole", ...) are user entities, not emitted poles
+        user = set(r.get("placed") or [])
+        poles = [(e, i) for e, i in zip(ents, ids) if e["name"] in POLE_PROTO.values() and i not in user]
+        if any(e["name"] in POLE_PROTO.values() and i in user for e, i in zip(ents, ids)):
+            stats["programs_with_user_placed_poles"] += 1
         if T is None:
             # only circuit relays may be poles
             stray = [i for e, i in poles if not ("relay" in i)]
@@ -59,7 +63,11 @@ def run(res, tier):
                     res.violation({"reason": "an entity that consumes electricity lies outside every pole's supply area",
                                    "entities": g["unpowered"][:5], "inside_pole_area": g.get("unpowered_inside"),
                                    "source": r["source"], "options": o})
-        if g.get("n_poles", 0) > 0 and g.get("pole_components", 1) != 1:
+        has_user_poles = any(e["name"] in POLE_PROTO.values() and i in user for e, i in zip(ents, ids))
+        if has_user_poles and g.get("pole_components", 1) != 1:
+            # the decoded pole graph includes the program's own poles, which the clause does not speak about
+            stats["single_network_not_evaluated(user-placed poles)"] += 1
+        elif g.get("n_poles", 0) > 0 and g.get("pole_components", 1) != 1:
             # the emitter wires every pole to its nearest <= 5 neighbours (2 for relays): that never guaranteed a
             # single network (theorem Facto.nearest_neighbour_not_connected); the clause is a listed finding
             res.known("F30", "the emitted poles do not form a single electric network (nearest-k copper wiring, connectivity-blind trimming)",
